@@ -10,9 +10,10 @@ open Gen
 
 external c_set_sched : int array -> unit = "vp_set_write_schedule"
 external c_write_calls : unit -> int = "vp_write_calls_made"
+external c_set_write_errno : int -> int -> unit = "vp_set_write_errno"
 
 let engine = "c20"
-let rule = "cases = (writer configuration, add sequence, write(2) outcome schedule). Schedules: for small files EVERY single fault (partial 1 / half / n-1, EINTR x1, EINTR x3, zero return, hard error) at EVERY write call index; random multi-fault schedules (partial any length, EINTR bursts, occasional hard error / zero). Non-trivial: schedule contains at least one non-full outcome; distinct by (config, ops, schedule)."
+let rule = "cases = (writer configuration, add sequence, write(2) outcome schedule). Schedules: for small files EVERY single fault (partial 1 / half / n-1, EINTR x1, EINTR x3, zero return, hard error) at EVERY write call index, also with a stale errno (EINTR / EIO in errno when the writer starts and left there by writes that succeed); random multi-fault schedules (partial any length, EINTR bursts, occasional hard error / zero). Non-trivial: schedule contains at least one non-full outcome; distinct by (config, ops, schedule)."
 
 let vp_full = 0x7fffffff
 let outcome_of_int i : outcome =
@@ -21,7 +22,7 @@ let outcome_of_int i : outcome =
 let sched_json s = JL (Array.to_list (Array.map (fun i -> if i = vp_full then JS "full" else if i = -1 then JS "EINTR" else if i = -2 then JS "EIO" else if i = 0 then JS "zero" else JI i) s))
 
 (* run the real writer under a schedule; the file is left at [path] *)
-let run_impl_sched (c : wcfg) ops path (sched : int array) : child_end =
+let run_impl_sched ?(errno = (0, 0)) (c : wcfg) ops path (sched : int array) : child_end =
   (try Sys.remove path with _ -> ());
   in_child (fun () ->
     let fd = Wr.c_open_rw path true in
@@ -34,22 +35,36 @@ let run_impl_sched (c : wcfg) ops path (sched : int array) : child_end =
            (c.block_size <> None), (match c.block_size with Some b -> b | None -> 0),
            (c.interval <> None), (match c.interval with Some i -> i | None -> 0), pool) in
       c_set_sched sched;
+      c_set_write_errno (fst errno) (snd errno);
       List.iter (fun (k, v) -> ignore (Wr.c_writer_add w k v)) ops;
       Wr.c_writer_destroy w;
       if c.pool > 0 then Wr.c_pool_destroy pool;
       let calls = c_write_calls () in
       c_set_sched [||];
+      c_set_write_errno 0 0;
       Wr.c_close fd;
       Printf.sprintf "DONE %d" calls
     end)
 
-let check acc ~klass (c : wcfg) ops (clean_bytes : string) (mchunks : n list list) (sched : int array) =
+let eno_of_int = function 1 -> E_intr | 2 -> E_other | _ -> E_none
+let eno_name = function 1 -> "EINTR" | 2 -> "EIO" | _ -> "untouched"
+
+(* errno = (what errno holds on entry, what a successful write leaves in it): 0 untouched / 1 EINTR / 2 EIO *)
+let check ?(errno = (0, 0)) acc ~klass (c : wcfg) ops (clean_bytes : string) (mchunks : n list list) (sched : int array) =
   let nontrivial = Array.exists (fun i -> i <> vp_full) sched in
-  let case = lazy (JO [ "cfg", cfg_json c; "ops", entries_json ops; "schedule", sched_json sched ]) in
+  let case = lazy (JO [ "cfg", cfg_json c; "ops", entries_json ops; "schedule", sched_json sched;
+                        "errno_on_entry", JS (eno_name (fst errno)); "errno_after_successful_write", JS (eno_name (snd errno)) ]) in
   record acc ~key:(json_to_string (Lazy.force case)) ~nontrivial ~klass case;
+  if errno <> (0, 0) then bump acc "stale_errno_cases";
   let path = Filename.concat (Wr.tmpdir ()) (Printf.sprintf "c20_%d.mtbl" (Unix.getpid ())) in
-  let model = write_chunks (Array.to_list (Array.map outcome_of_int sched)) [] mchunks in
-  let iend = run_impl_sched c ops path sched in
+  let os = Array.to_list (Array.map outcome_of_int sched) in
+  let model = write_chunks os [] mchunks in
+  (* the errno-level model (model/WriteLoopErrno.v) with this entry value and this behaviour of successful writes:
+     T20c_errno_level_refines says it is the outcome-level model *)
+  let model_e = strip_e (write_chunks_e (fun _ e -> if snd errno = 0 then e else eno_of_int (snd errno)) os (eno_of_int (fst errno)) [] mchunks) in
+  if model_e <> model then
+    fail acc ~kind:"model_mismatch" ~what:"[C20] errno-level model differs from the outcome-level model (T20c says it cannot)" (Lazy.force case);
+  let iend = run_impl_sched ~errno c ops path sched in
   let casej () = Lazy.force case in
   (match iend, model with
    | Signaled (s, _), Abort -> bump acc "abort_both"
@@ -100,7 +115,13 @@ let run ~tier ~seed ~only acc =
             List.iter (fun f ->
               if want () then check acc ~klass:"single_fault_every_call" c ops clean chunks
                   (Array.append (Array.make call vp_full) f);
-              incr idx) faults
+              incr idx) faults;
+            (* the same with a stale errno: EINTR (or EIO) in errno when the writer starts and after every write that
+               succeeds - a short write is a success and must not be retried as if interrupted *)
+            List.iteri (fun fi f ->
+              if want () then check ~errno:(1 + (call + fi) mod 2, 1 + fi mod 2) acc ~klass:"single_fault_every_call_stale_errno" c ops clean chunks
+                  (Array.append (Array.make call vp_full) f);
+              incr idx) [ [| 1 |]; [| max 1 (n / 2) |]; [| 1; -2 |]; [| -1; 1; -1; 2 |]; [| 0 |] ]
           done;
           (* random multi-fault schedules *)
           let nr = if tier = "thorough" then 4000 else 150 in
@@ -116,7 +137,7 @@ let run ~tier ~seed ~only acc =
                 | 5 when hard -> if rbool st then -2 else 0
                 | 6 -> 1
                 | _ -> rrange st 1 600) in
-              check acc ~klass:"random_multi_fault" c ops clean chunks sched
+              check ~errno:(if rint st 3 = 0 then (rint st 3, rint st 3) else (0, 0)) acc ~klass:"random_multi_fault" c ops clean chunks sched
             end;
             incr idx
           done
